@@ -181,8 +181,11 @@ class LineRun:
                     gaps = spec.get('between') or []
                     if k < len(gaps) and k + 1 < len(spec['horizon']):
                         for op in gaps[k]:
-                            with instrument.external(bus):
-                                build_mod.ScriptAction(self.model.world, op, self.model.log)()
+                            try:
+                                with instrument.external(bus):
+                                    build_mod.ScriptAction(self.model.world, op, self.model.log)()
+                            except build_mod.HarnessError:
+                                self.count('user_code_exceptions_caught_and_continued')
                             self.count('operations_between_runs')
                             # every operation issued from outside is a boundary of its own (two of them may
                             # cancel out, e.g. shutdown then restore)
